@@ -408,12 +408,14 @@ class POXCore (EventMixin):
       vwarn("Support for Python 3 is experimental.")
 
     self.starting_up = False
+    # Hold a deferral ourselves until GoingUp has been handled, so that stage 2
+    # runs exactly once: when the last deferral (possibly ours) is released.
+    deferral = self._get_go_up_deferral()
     self.raiseEvent(GoingUpEvent())
 
     self._add_signal_handlers()
 
-    if not self._go_up_deferrals:
-      self._goUp_stage2()
+    deferral()
 
   def _get_go_up_deferral (self):
     """
@@ -428,7 +430,7 @@ class POXCore (EventMixin):
       if o not in self._go_up_deferrals:
         raise RuntimeError("This deferral has already been executed")
       self._go_up_deferrals.remove(o)
-      if not self._go_up_deferrals:
+      if not self._go_up_deferrals and not self.starting_up:
         log.debug("Continuing to go up")
         self._goUp_stage2()
 
